@@ -21,6 +21,8 @@ func genSize(t *rapid.T, label string) int64 {
 	}
 }
 
+var longGapsQuick int
+
 func GenCarrier(t *rapid.T, maxBytes int64) Carrier {
 	c := Carrier{}
 	c.Mode = rapid.SampledFrom([]string{"reset", "close", "close", "freeze"}).Draw(t, "mode")
@@ -29,8 +31,13 @@ func GenCarrier(t *rapid.T, maxBytes int64) Carrier {
 	}
 	c.DialDelayMs = rapid.SampledFrom([]int{0, 0, 0, 5, 50, 400}).Draw(t, "dialdelay")
 	if vstat.Thorough() && rapid.IntRange(0, 15).Draw(t, "longgap") == 0 {
-		// an idle gap between carriers that is long, yet far below the one-minute retention
-		c.DialDelayMs = rapid.SampledFrom([]int{3000, 12000, 25000}).Draw(t, "gap")
+		// an idle gap between carriers: long but below the server's one-minute queue retention, or beyond
+		// it (35 s and 62 s also span whole 30-second periods of any timer on either side)
+		c.DialDelayMs = rapid.SampledFrom([]int{3000, 12000, 25000, 35000, 62000}).Draw(t, "gap")
+	} else if !vstat.Thorough() && vstat.Shard() == 0 && longGapsQuick == 0 && rapid.IntRange(0, 3).Draw(t, "longgapquick") == 0 {
+		// quick tier: one such outage per run, in one shard
+		c.DialDelayMs = 62000
+		longGapsQuick++
 	}
 	c.DialFailures = rapid.SampledFrom([]int{0, 0, 0, 1, 3}).Draw(t, "dialfail")
 	pos := func(label string) int64 {
